@@ -18,6 +18,7 @@ set_option linter.unusedVariables false
 namespace Dec.C06GenToInt
 open Dec.Rs Dec.Gen.Code
 open Dec.C03GenCompare (val128 val128_lt sigW sigF zeroP nzFin negW expW expW_lt inf_test steer_test coeff_hi gt128 zero128 toNat_and_field val128_sigF)
+open Dec.C03GenCompare (val192 val256 mul_128x128_to_256_spec ite_ok)
 open Dec.C03GenCompare (mul_64x64_to_128_spec tbl64_ten tbl128_ten int32_gt_lit ofInt_toNat_of_nonneg)
 open Dec.C13GenNoncomp (float_exp tblDD_nr nr_q log2_shift log2_hi toI_u64 toI_u32 toI_i32 u64_ofInt_nat u32_ofInt_nat shr32 nr_bound i32_of_small)
 
@@ -94,15 +95,10 @@ def rangeK {α : Type} (P : RangeP) (x_sign : UInt64) (C1 : U128) (q exp : Int32
         if cmp128 P.sP C1 C then inv else k
   else k
 
-/-- digit removal: add half a unit of the last kept place, multiply by the reciprocal of `10^ind`, split the product into
-the quotient `Cstar` (already shifted) and the fraction `fstar` -/
-def removeK {α : Type} (C1_ : U128) (ind : Int32) (k : U128 → U256 → Except String α) : Except String α := do
+/-- add half a unit of the last kept place (`5·10^(ind−1)`) to the coefficient -/
+def addHalfK {α : Type} (C1_ : U128) (ind : Int32) (k : U128 → Except String α) : Except String α := do
   let mut C1 : U128 := C1_
   let mut tmp64 : UInt64 := default
-  let mut Cstar : U128 := default
-  let mut fstar : U256 := default
-  let mut P256 : U256 := default
-  let mut shift : Int32 := default
   tmp64 := C1.w0
   if (decide (ind ≤ (0x13 : Int32))) then
     C1 := { C1 with w0 := (C1.w0 + (← tbl64 Dec.Gen.BID_MIDPOINT64 (UInt64.ofInt (toI ((ind - (1 : Int32))))))) }
@@ -111,6 +107,15 @@ def removeK {α : Type} (C1_ : U128) (ind : Int32) (k : U128 → U256 → Except
     C1 := { C1 with w1 := (C1.w1 + (← tbl128 Dec.Gen.BID_MIDPOINT128 (UInt64.ofInt (toI ((ind - (0x14 : Int32)))))).w1) }
   if (decide (C1.w0 < tmp64)) then
     C1 := { C1 with w1 := (C1.w1 + 1) }
+  k C1
+
+/-- multiply by the reciprocal of `10^ind` and split the 256-bit product into the quotient `Cstar` (already shifted) and
+the fraction `fstar` -/
+def splitK {α : Type} (C1 : U128) (ind : Int32) (k : U128 → U256 → Except String α) : Except String α := do
+  let mut Cstar : U128 := default
+  let mut fstar : U256 := default
+  let mut P256 : U256 := default
+  let mut shift : Int32 := default
   P256 := (← mul_128x128_to_256 C1 (← tbl128 Dec.Gen.BID_TEN2MK128 (UInt64.ofInt (toI ((ind - (1 : Int32)))))))
   if (decide ((ind - (1 : Int32)) ≤ (0x15 : Int32))) then
     Cstar := { Cstar with w1 := P256.w3 }
@@ -129,6 +134,10 @@ def removeK {α : Type} (C1_ : U128) (ind : Int32) (k : U128 → U256 → Except
   shift := (← tblI32 Dec.Gen.BID_SHIFTRIGHT128 (UInt64.ofInt (toI ((ind - (1 : Int32))))))
   Cstar := { Cstar with w0 := (if (decide ((ind - (1 : Int32)) ≤ (0x15 : Int32))) then (((Cstar.w0 >>> (UInt64.ofInt (toI shift)))) ||| ((Cstar.w1 <<< (UInt64.ofInt (toI (((0x40 : Int32) - shift))))))) else (Cstar.w0 >>> (UInt64.ofInt (toI ((shift - (0x40 : Int32))))))) }
   k Cstar fstar
+
+/-- digit removal: add half a unit of the last kept place, multiply by the reciprocal of `10^ind`, split the product -/
+def removeK {α : Type} (C1 : U128) (ind : Int32) (k : U128 → U256 → Except String α) : Except String α :=
+  addHalfK C1 ind (fun C1' => splitK C1' ind k)
 
 /-- classification of the fraction: `kA` when it is above ½ by more than the reciprocal error (discarded part below the
 midpoint, inexact), `kB` when above ½ but within the error (discarded part zero), `kC` otherwise -/
@@ -542,6 +551,620 @@ theorem rangeK_spec {α : Type} (P : RangeP) (xs : UInt64) (C1 : U128) (q exp : 
     exact side P.sN P.cN hcN
   · rw [if_neg c4, if_neg (by simpa [bne_iff_ne] using c4)]
     exact side P.sP P.cP hcP
+
+
+/-! ### the tables of the digit-removal stage -/
+
+/-- shift amount, reciprocal, truncated reciprocal for removing `i + 1` digits -/
+def shT (i : Nat) : Nat := Dec.Gen.BID_SHIFTRIGHT128.getD i 0
+def kT (i : Nat) : Nat := Dec.Gen.BID_TEN2MK128.getD (2 * i) 0 + 2^64 * Dec.Gen.BID_TEN2MK128.getD (2 * i + 1) 0
+def tT (i : Nat) : Nat := Dec.Gen.BID_TEN2MK128TRUNC.getD (2 * i) 0 + 2^64 * Dec.Gen.BID_TEN2MK128TRUNC.getD (2 * i + 1) 0
+
+/-- everything the proofs use about row `i` of the tables, as one decidable statement -/
+def rowFacts (i : Nat) : Bool :=
+  let s := shT i; let K := kT i; let D := 10 ^ (i + 1)
+  decide (2 ^ (128 + s) < K * D) && decide ((10 ^ 35 / D + 1) * (K * D - 2 ^ (128 + s)) < K) &&
+  decide (tT i + 1 = K) && decide (K < 2^128) &&
+  decide (Dec.Gen.BID_TEN2MK128[2 * i]? = some (K % 2^64)) && decide (Dec.Gen.BID_TEN2MK128[2 * i + 1]? = some (K / 2^64)) &&
+  decide (Dec.Gen.BID_TEN2MK128TRUNC[2 * i]? = some (tT i % 2^64)) && decide (Dec.Gen.BID_TEN2MK128TRUNC[2 * i + 1]? = some (tT i / 2^64)) &&
+  decide (Dec.Gen.BID_MASKHIGH128[i]? = some (2 ^ (s % 64) - 1)) &&
+  decide (Dec.Gen.BID_ONEHALF128[i]? = some (if s % 64 = 0 then 0 else 2 ^ (s % 64 - 1))) &&
+  decide (Dec.Gen.BID_SHIFTRIGHT128[i]? = some s) &&
+  decide (if i ≤ 2 then s = 0 else if i ≤ 21 then 1 ≤ s ∧ s ≤ 63 else 65 ≤ s ∧ s ≤ 127) &&
+  decide (if i < 19 then Dec.Gen.BID_MIDPOINT64[i]? = some (5 * 10 ^ i)
+          else Dec.Gen.BID_MIDPOINT128[2 * (i - 19)]? = some (5 * 10 ^ i % 2^64) ∧
+               Dec.Gen.BID_MIDPOINT128[2 * (i - 19) + 1]? = some (5 * 10 ^ i / 2^64))
+
+theorem rowFacts_all : ∀ i, i < 34 → rowFacts i = true := by decide +kernel
+
+
+/-! ### the reciprocal multiplication, on numbers -/
+
+/-- with `K·D = 2^E + δ` (`K` the reciprocal of `D` rounded up) and enough slack, the product `Cp·K` has the quotient
+`Cp / D` above bit `E` and the fraction bits `(Cp / D)·δ + (Cp mod D)·K` below -/
+theorem recipForm (D K E δ Cp : Nat) (hD : 0 < D) (hK : K * D = 2 ^ E + δ) (hb : (Cp / D + 1) * δ < K) :
+    Cp * K / 2 ^ E = Cp / D ∧ Cp * K % 2 ^ E = Cp / D * δ + Cp % D * K := by
+  have e' := Nat.div_add_mod Cp D
+  have hr' := Nat.mod_lt Cp hD
+  generalize Cp / D = a' at *
+  generalize Cp % D = r' at *
+  have hP : Cp * K = 2 ^ E * a' + (a' * δ + r' * K) := by
+    calc Cp * K = (D * a' + r') * K := by rw [e']
+      _ = a' * (K * D) + r' * K := by rw [Nat.add_mul, Nat.mul_comm D a', Nat.mul_assoc, Nat.mul_comm D K]
+      _ = a' * (2 ^ E + δ) + r' * K := by rw [hK]
+      _ = 2 ^ E * a' + (a' * δ + r' * K) := by rw [Nat.mul_add, Nat.mul_comm a' (2 ^ E), Nat.add_assoc]
+  have hb' : a' * δ + δ < K := by rw [Nat.add_mul, Nat.one_mul] at hb; exact hb
+  have hrK : r' * K + K ≤ 2 ^ E + δ := by
+    have : (r' + 1) * K ≤ D * K := Nat.mul_le_mul_right K hr'
+    rw [Nat.add_mul, Nat.one_mul, Nat.mul_comm D K, hK] at this
+    exact this
+  have hX : a' * δ + r' * K < 2 ^ E := by omega
+  constructor
+  · rw [hP, Nat.mul_add_div (Nat.pow_pos (by decide)), Nat.div_eq_of_lt hX, Nat.add_zero]
+  · rw [hP, Nat.mul_add_mod, Nat.mod_eq_of_lt hX]
+
+/-- **fraction tests, on numbers.**  `D = 2h = 10^x`, `K·D = 2^E + δ`, `0 < δ`, enough slack; `a = C / D`, `r = C mod D`.
+With `A` the bits of `(C + h)·K` above bit `E` and `F` those below:
+`A = a` or `a + 1` (nearest, half up);  `F > 2^(E−1) ⇔ r < h`;  when `r < h`: `F − 2^(E−1) ≥ K − 1 ⇔ F − 2^(E−1) > K − 1 ⇔ 0 < r`;
+`0 < F ≤ K − 1 ⇔ r = h`. -/
+theorem fracTests (h K E δ C : Nat) (hh : 0 < h) (hK : K * (2 * h) = 2 ^ E + δ) (hδ : 0 < δ) (hE : 1 ≤ E)
+    (hb : ((C + h) / (2 * h) + 1) * δ < K) :
+    let A := (C + h) * K / 2 ^ E
+    let F := (C + h) * K % 2 ^ E
+    let r := C % (2 * h)
+    A = (if r < h then C / (2 * h) else C / (2 * h) + 1) ∧
+    (2 ^ (E - 1) < F ↔ r < h) ∧
+    (r < h → (K - 1 ≤ F - 2 ^ (E - 1) ↔ 0 < r)) ∧
+    (r < h → (K - 1 < F - 2 ^ (E - 1) ↔ 0 < r)) ∧
+    ((0 < F ∧ F ≤ K - 1) ↔ r = h) ∧ (F ≤ K - 1 ↔ r = h) := by
+  intro A F r
+  obtain ⟨c1, c2, c3, c4, c5⟩ := Dec.C02RoundHelpers.core h K E δ C hh hK hδ hE hb
+  obtain ⟨hA, hF⟩ := recipForm (2 * h) K E δ (C + h) (by omega) hK hb
+  refine ⟨c1, c2, ?_, c3, ?_, c4⟩
+  · -- `≥` instead of `>`: the value `K − 1` itself is not taken
+    intro hr
+    constructor
+    · intro hge
+      apply Classical.byContradiction
+      intro h0
+      have hr0 : r = 0 := by omega
+      -- r = 0: (C + h) mod 2h = h, F = a'·δ + h·K, 2·h·K = 2^E + δ
+      have hmod : (C + h) % (2 * h) = h := by
+        have := Nat.div_add_mod C (2 * h)
+        have e : C + h = 2 * h * (C / (2 * h)) + h := by
+          show C + h = _; have : C % (2 * h) = 0 := hr0; omega
+        rw [e, Nat.mul_add_mod, Nat.mod_eq_of_lt (by omega)]
+      have hFv : F = (C + h) / (2 * h) * δ + h * K := by
+        show (C + h) * K % 2 ^ E = _; rw [hF, hmod]
+      have hpow : 2 ^ E = 2 * 2 ^ (E - 1) := by rw [← Nat.pow_succ']; congr 1; omega
+      have hhK : 2 * (h * K) = 2 * 2 ^ (E - 1) + δ := by rw [← hpow, ← hK, Nat.mul_comm K, Nat.mul_assoc]
+      have hb' : (C + h) / (2 * h) * δ + δ < K := by rw [Nat.add_mul, Nat.one_mul] at hb; exact hb
+      generalize (C + h) / (2 * h) * δ = X at *
+      generalize h * K = Y at *
+      generalize 2 ^ (E - 1) = half at *
+      omega
+    · intro h0
+      exact Nat.le_of_lt ((c3 hr).2 h0)
+  · constructor
+    · intro ⟨_, hle⟩; exact c4.1 hle
+    · intro hr
+      refine ⟨?_, c4.2 hr⟩
+      -- r = h: (C + h) mod 2h = 0 and (C + h) / 2h ≥ 1, F = a'·δ > 0
+      have hmod : (C + h) % (2 * h) = 0 := by
+        have := Nat.div_add_mod C (2 * h)
+        have e : C + h = 2 * h * (C / (2 * h) + 1) := by
+          show C + h = _; have : C % (2 * h) = h := hr; rw [Nat.mul_add]; omega
+        rw [e, Nat.mul_mod_right]
+      have hdiv : 1 ≤ (C + h) / (2 * h) := by
+        have : 2 * h ≤ C + h := by
+          have := Nat.mod_le C (2 * h); have : C % (2 * h) = h := hr; omega
+        exact (Nat.le_div_iff_mul_le (by omega)).2 (by omega)
+      have hFv : F = (C + h) / (2 * h) * δ := by
+        show (C + h) * K % 2 ^ E = _; rw [hF, hmod, Nat.zero_mul, Nat.add_zero]
+      rw [hFv]
+      exact Nat.mul_pos hdiv hδ
+
+
+/-! ### table look-ups of the digit-removal stage -/
+
+theorem tbl64_get (t : List Nat) (i : UInt64) (v : Nat) (h : t[i.toNat]? = some v) : tbl64 t i = .ok (UInt64.ofNat v) := by
+  unfold tbl64; rw [h]
+
+theorem tbl128_get (t : List Nat) (i : UInt64) (a b : Nat) (h0 : t[2 * i.toNat]? = some a) (h1 : t[2 * i.toNat + 1]? = some b) :
+    tbl128 t i = .ok ⟨UInt64.ofNat a, UInt64.ofNat b⟩ := by
+  unfold tbl128; rw [h0, h1]
+
+theorem tblI32_get (t : List Nat) (i : UInt64) (v : Nat) (h : t[i.toNat]? = some v) (hv : v < 2^31) :
+    ∃ r : Int32, tblI32 t i = .ok r ∧ r.toInt = v := by
+  refine ⟨_, by unfold tblI32; rw [h], ?_⟩
+  have e : (UInt64.ofNat v).toInt64.toInt = v := by
+    rw [UInt64.toInt64_ofNat', Int64.toInt_ofNat_of_lt (by omega)]
+  rw [e, Int32.toInt_ofInt_of_le (by omega) (by omega)]
+
+theorem val128_ofNat (K : Nat) (h : K < 2^128) : val128 ⟨UInt64.ofNat (K % 2^64), UInt64.ofNat (K / 2^64)⟩ = K := by
+  simp only [val128, UInt64.toNat_ofNat']
+  omega
+
+/-- the facts about row `i`, unpacked -/
+theorem row (i : Nat) (hi : i < 34) :
+    2 ^ (128 + shT i) < kT i * 10 ^ (i + 1) ∧
+    (10 ^ 35 / 10 ^ (i + 1) + 1) * (kT i * 10 ^ (i + 1) - 2 ^ (128 + shT i)) < kT i ∧
+    tT i + 1 = kT i ∧ kT i < 2^128 ∧
+    Dec.Gen.BID_TEN2MK128[2 * i]? = some (kT i % 2^64) ∧ Dec.Gen.BID_TEN2MK128[2 * i + 1]? = some (kT i / 2^64) ∧
+    Dec.Gen.BID_TEN2MK128TRUNC[2 * i]? = some (tT i % 2^64) ∧ Dec.Gen.BID_TEN2MK128TRUNC[2 * i + 1]? = some (tT i / 2^64) ∧
+    Dec.Gen.BID_MASKHIGH128[i]? = some (2 ^ (shT i % 64) - 1) ∧
+    Dec.Gen.BID_ONEHALF128[i]? = some (if shT i % 64 = 0 then 0 else 2 ^ (shT i % 64 - 1)) ∧
+    Dec.Gen.BID_SHIFTRIGHT128[i]? = some (shT i) ∧
+    (if i ≤ 2 then shT i = 0 else if i ≤ 21 then 1 ≤ shT i ∧ shT i ≤ 63 else 65 ≤ shT i ∧ shT i ≤ 127) ∧
+    (if i < 19 then Dec.Gen.BID_MIDPOINT64[i]? = some (5 * 10 ^ i)
+      else Dec.Gen.BID_MIDPOINT128[2 * (i - 19)]? = some (5 * 10 ^ i % 2^64) ∧
+           Dec.Gen.BID_MIDPOINT128[2 * (i - 19) + 1]? = some (5 * 10 ^ i / 2^64)) := by
+  have h := rowFacts_all i hi
+  simp only [rowFacts, Bool.and_eq_true, decide_eq_true_eq] at h
+  obtain ⟨⟨⟨⟨⟨⟨⟨⟨⟨⟨⟨⟨a1, a2⟩, a3⟩, a4⟩, a5⟩, a6⟩, a7⟩, a8⟩, a9⟩, a10⟩, a11⟩, a12⟩, a13⟩ := h
+  exact ⟨a1, a2, a3, a4, a5, a6, a7, a8, a9, a10, a11, a12, a13⟩
+
+
+/-! ### adding the midpoint -/
+
+theorem idx_sub (ind : Int32) (c : Int32) (x cv : Nat) (hx : ind.toInt = x) (hc : c.toInt = cv) (hle : cv ≤ x) (hb : x < 2^20) :
+    (UInt64.ofInt (toI (ind - c))).toNat = x - cv := by
+  apply idx_of_i32
+  rw [i32_sub _ _ (by rw [hx, hc]; omega) (by rw [hx, hc]; omega), hx, hc]; omega
+
+theorem add_words (a0 a1 m0 m1 : Nat) (ha0 : a0 < 2^64) (hm0 : m0 < 2^64)
+    (h : a1 * 2^64 + a0 + (m1 * 2^64 + m0) < 2^128) :
+    ((a0 + m0) % 2^64 < a0 → ((a1 + m1) % 2^64 + 1) % 2^64 * 2^64 + (a0 + m0) % 2^64 = a1 * 2^64 + a0 + (m1 * 2^64 + m0)) ∧
+    (¬ (a0 + m0) % 2^64 < a0 → (a1 + m1) % 2^64 * 2^64 + (a0 + m0) % 2^64 = a1 * 2^64 + a0 + (m1 * 2^64 + m0)) := by
+  have hc : a1 + m1 + (a0 + m0) / 2^64 < 2^64 := by
+    apply Nat.lt_of_mul_lt_mul_right (a := 2^64)
+    have := Nat.div_add_mod (a0 + m0) (2^64)
+    have : (a1 + m1 + (a0 + m0) / 2^64) * 2^64 ≤ a1 * 2^64 + a0 + (m1 * 2^64 + m0) := by
+      rw [Nat.add_mul, Nat.add_mul]; omega
+    calc (a1 + m1 + (a0 + m0) / 2^64) * 2^64 ≤ a1 * 2^64 + a0 + (m1 * 2^64 + m0) := this
+      _ < 2^64 * 2^64 := by omega
+  have hd := Nat.div_add_mod (a0 + m0) (2^64)
+  have hq : (a0 + m0) / 2^64 ≤ 1 := by omega
+  constructor
+  · intro hlt
+    have : (a0 + m0) / 2^64 = 1 := by omega
+    rw [Nat.mod_eq_of_lt (a := a1 + m1) (by omega), Nat.mod_eq_of_lt (a := a1 + m1 + 1) (by omega)]
+    rw [this] at hd
+    linarith
+  · intro hlt
+    have : (a0 + m0) / 2^64 = 0 := by omega
+    rw [Nat.mod_eq_of_lt (a := a1 + m1) (by omega)]
+    rw [this] at hd
+    linarith
+
+/-- **adding the midpoint**: the block continues with `C + 5·10^(x−1)` (no panic, no wrap) -/
+theorem addHalfK_spec {α : Type} (C1 : U128) (ind : Int32) (k : U128 → Except String α) (x : Nat)
+    (hx : ind.toInt = x) (h1 : 1 ≤ x) (h34 : x ≤ 34) (hC : val128 C1 + 5 * 10 ^ (x - 1) < 2^128) :
+    ∃ C1' : U128, addHalfK C1 ind k = k C1' ∧ val128 C1' = val128 C1 + 5 * 10 ^ (x - 1) := by
+  have hl := C1.w0.toNat_lt
+  obtain ⟨-, -, -, -, -, -, -, -, -, -, -, -, hmid⟩ := row (x - 1) (by omega)
+  simp only [addHalfK, bind, Except.bind, pure, Except.pure]
+  generalize hM : 5 * 10 ^ (x - 1) = M at *
+  by_cases c : x ≤ 19
+  · rw [if_pos (by rw [decide_eq_true_eq, Int32.le_iff_toInt_le, hx]; show (x : Int) ≤ 19; omega)]
+    rw [if_pos (by omega)] at hmid
+    have hk := idx_sub ind 1 x 1 hx rfl h1 (by omega)
+    rw [tbl64_get _ _ _ (by rw [hk]; exact hmid)]
+    have hMlt : M < 2^64 := by
+      rw [← hM]
+      calc 5 * 10 ^ (x - 1) ≤ 5 * 10 ^ 18 := Nat.mul_le_mul_left 5 (Nat.pow_le_pow_right (by decide) (by omega))
+        _ < 2^64 := by decide
+    obtain ⟨aw1, aw2⟩ := add_words C1.w0.toNat C1.w1.toNat M 0 hl hMlt (by unfold val128 at hC; omega)
+    simp only []
+    by_cases cy : C1.w0 + UInt64.ofNat M < C1.w0
+    · rw [if_pos (by simpa using cy)]
+      refine ⟨_, rfl, ?_⟩
+      rw [UInt64.lt_iff_toNat_lt, UInt64.toNat_add, UInt64.toNat_ofNat', Nat.mod_eq_of_lt hMlt] at cy
+      have := aw1 cy
+      simp only [val128, UInt64.toNat_add, UInt64.toNat_ofNat', UInt64.toNat_one, Nat.mod_eq_of_lt hMlt]
+      simp only [Nat.add_zero, Nat.zero_mul, Nat.zero_add, Nat.mod_eq_of_lt C1.w1.toNat_lt] at this
+      exact this
+    · rw [if_neg (by simpa using cy)]
+      refine ⟨_, rfl, ?_⟩
+      rw [UInt64.lt_iff_toNat_lt, UInt64.toNat_add, UInt64.toNat_ofNat', Nat.mod_eq_of_lt hMlt] at cy
+      have := aw2 cy
+      simp only [val128, UInt64.toNat_add, UInt64.toNat_ofNat', Nat.mod_eq_of_lt hMlt]
+      simp only [Nat.add_zero, Nat.zero_mul, Nat.zero_add, Nat.mod_eq_of_lt C1.w1.toNat_lt] at this
+      exact this
+  · rw [if_neg (by rw [decide_eq_true_eq, Int32.le_iff_toInt_le, hx]; show ¬ (x : Int) ≤ 19; omega)]
+    rw [if_neg (by omega), show x - 1 - 19 = x - 20 by omega] at hmid
+    have hk := idx_sub ind 0x14 x 20 hx rfl (by omega) (by omega)
+    rw [tbl128_get _ _ _ _ (by rw [hk]; exact hmid.1) (by rw [hk]; exact hmid.2)]
+    simp only []
+    have hMlt : M < 2^128 := by omega
+    have hMs : M / 2^64 * 2^64 + M % 2^64 = M := by omega
+    obtain ⟨aw1, aw2⟩ := add_words C1.w0.toNat C1.w1.toNat (M % 2^64) (M / 2^64) hl (by omega)
+      (by unfold val128 at hC; omega)
+    by_cases cy : C1.w0 + UInt64.ofNat (M % 2^64) < C1.w0
+    · rw [if_pos (by simpa using cy)]
+      refine ⟨_, rfl, ?_⟩
+      rw [UInt64.lt_iff_toNat_lt, UInt64.toNat_add, UInt64.toNat_ofNat', Nat.mod_mod] at cy
+      have := aw1 cy
+      simp only [val128, UInt64.toNat_add, UInt64.toNat_ofNat', UInt64.toNat_one, Nat.mod_mod]
+      rw [Nat.mod_eq_of_lt (a := M / 2^64) (by omega), this, hMs]
+    · rw [if_neg (by simpa using cy)]
+      refine ⟨_, rfl, ?_⟩
+      rw [UInt64.lt_iff_toNat_lt, UInt64.toNat_add, UInt64.toNat_ofNat', Nat.mod_mod] at cy
+      have := aw2 cy
+      simp only [val128, UInt64.toNat_add, UInt64.toNat_ofNat', Nat.mod_mod]
+      rw [Nat.mod_eq_of_lt (a := M / 2^64) (by omega), this, hMs]
+
+
+/-! ### splitting the product -/
+
+open Dec.RH (wd shl64 shr64) in
+open Dec.C02RoundHelpers (funnelZ' shr_top and_mask modsplit) in
+/-- word-level: the quotient word and the fraction of a 256-bit product `P` split at bit `128 + s`, as the code assembles them -/
+theorem split_words (P : U256) (s : Nat) (sh : Int32) (hs : sh.toInt = s) (m : UInt64) (hm : m.toNat = 2 ^ (s % 64) - 1) :
+    (s ≤ 63 →
+      (val256 P / 2 ^ (128 + s) < 2^64 →
+        (P.w2 >>> UInt64.ofInt (toI sh) ||| P.w3 <<< UInt64.ofInt (toI ((0x40 : Int32) - sh))).toNat = val256 P / 2 ^ (128 + s)) ∧
+      val256 ⟨P.w0, P.w1, P.w2 &&& m, 0⟩ = val256 P % 2 ^ (128 + s)) ∧
+    (65 ≤ s → s ≤ 127 →
+      (P.w3 >>> UInt64.ofInt (toI (sh - (0x40 : Int32)))).toNat = val256 P / 2 ^ (128 + s) ∧
+      val256 ⟨P.w0, P.w1, P.w2, P.w3 &&& m⟩ = val256 P % 2 ^ (128 + s)) := by
+  have b0 := P.w0.toNat_lt; have b1 := P.w1.toNat_lt; have b2 := P.w2.toNat_lt; have b3 := P.w3.toNat_lt
+  have hP : val256 P < 2^256 := by unfold val256; omega
+  have w0 : wd (val256 P) 0 = P.w0.toNat := by unfold wd val256; omega
+  have w1 : wd (val256 P) 1 = P.w1.toNat := by unfold wd val256; omega
+  have w2 : wd (val256 P) 2 = P.w2.toNat := by unfold wd val256; omega
+  have w3 : wd (val256 P) 3 = P.w3.toNat := by unfold wd val256; omega
+  have low : val256 P % 2^128 = P.w1.toNat * 2^64 + P.w0.toNat := by unfold val256; omega
+  have low3 : val256 P % 2^192 = P.w2.toNat * 2^128 + P.w1.toNat * 2^64 + P.w0.toNat := by unfold val256; omega
+  constructor
+  · intro h63
+    have hk : (UInt64.ofInt (toI sh)).toNat = s := idx_of_i32 _ _ hs
+    have hk' : (UInt64.ofInt (toI ((0x40 : Int32) - sh))).toNat = 64 - s := by
+      apply idx_of_i32
+      rw [i32_sub _ _ (by rw [hs]; show (-2^31 : Int) ≤ 64 - s; omega) (by rw [hs]; show (64 : Int) - s < 2^31; omega), hs]
+      show (64 : Int) - s = _; omega
+    constructor
+    · intro hA
+      rw [UInt64.toNat_or, UInt64.toNat_shiftRight, UInt64.toNat_shiftLeft, hk, hk']
+      by_cases h0 : s = 0
+      · subst h0
+        have h3 : P.w3.toNat = 0 := by
+          have : val256 P < 2^192 := by
+            have := (Nat.div_lt_iff_lt_mul (Nat.pow_pos (by decide))).1 hA
+            calc val256 P < 2^64 * 2^(128 + 0) := this
+              _ = 2^192 := by decide
+          unfold val256 at this; omega
+        rw [h3]
+        simp only [Nat.zero_mod, Nat.shiftRight_zero, Nat.sub_zero, Nat.mod_self, Nat.zero_shiftLeft, Nat.or_zero, Nat.add_zero]
+        unfold val256; rw [h3]; omega
+      · have := funnelZ' (val256 P) 2 s (128 + s) 0 (by omega) h63 (by omega)
+        rw [w2, w3] at this
+        unfold shr64 shl64 at this
+        rw [this]
+        unfold wd
+        rw [Nat.mul_zero, Nat.pow_zero, Nat.div_one, Nat.mod_eq_of_lt hA]
+    · have hm' : (P.w2 &&& m).toNat = val256 P / 2 ^ 128 % 2 ^ s := by
+        rw [UInt64.toNat_and, hm, Nat.mod_eq_of_lt (by omega : s < 64), ← w2]
+        exact and_mask (val256 P) 2 s (by omega)
+      rw [modsplit, low]
+      simp only [val256, hm', UInt64.toNat_zero]
+      omega
+  · intro h65 h127
+    have hk : (UInt64.ofInt (toI (sh - (0x40 : Int32)))).toNat = s - 64 := by
+      apply idx_of_i32
+      rw [i32_sub _ _ (by rw [hs]; show (-2^31 : Int) ≤ s - 64; omega) (by rw [hs]; show (s : Int) - 64 < 2^31; omega), hs]
+      show (s : Int) - 64 = _; omega
+    constructor
+    · rw [UInt64.toNat_shiftRight, hk]
+      have := shr_top (val256 P) 3 (s - 64) (by omega) hP
+      rw [w3] at this
+      unfold shr64 at this
+      rw [this]
+      congr 2; omega
+    · have hm' : (P.w3 &&& m).toNat = val256 P / 2 ^ 192 % 2 ^ (s - 64) := by
+        rw [UInt64.toNat_and, hm, show s % 64 = s - 64 by omega, ← w3]
+        exact and_mask (val256 P) 3 (s - 64) (by omega)
+      rw [show 128 + s = 192 + (s - 64) by omega, modsplit, low3]
+      simp only [val256, hm']
+      omega
+
+
+/-- **splitting the product**: with `Pv = C'·K_x` and `E = 128 + s_x`, the block continues with the quotient word
+`Pv / 2^E` (when that fits a word) and the fraction `Pv mod 2^E` -/
+theorem splitK_spec {α : Type} (C1 : U128) (ind : Int32) (k : U128 → U256 → Except String α) (x : Nat)
+    (hx : ind.toInt = x) (h1 : 1 ≤ x) (h34 : x ≤ 34) :
+    ∃ (Cs : U128) (fs : U256), splitK C1 ind k = k Cs fs ∧
+      (val128 C1 * kT (x - 1) / 2 ^ (128 + shT (x - 1)) < 2^64 →
+        Cs.w0.toNat = val128 C1 * kT (x - 1) / 2 ^ (128 + shT (x - 1))) ∧
+      val256 fs = val128 C1 * kT (x - 1) % 2 ^ (128 + shT (x - 1)) := by
+  obtain ⟨-, -, -, hK, hk0, hk1, -, -, hmask, -, hsh, hrange, -⟩ := row (x - 1) (by omega)
+  have hk := idx_sub ind 1 x 1 hx rfl h1 (by omega)
+  have d1 : (ind - 1).toInt = ((x - 1 : Nat) : Int) := by
+    rw [i32_sub _ _ (by rw [hx]; show (-2^31 : Int) ≤ x - 1; omega) (by rw [hx]; show (x : Int) - 1 < 2^31; omega), hx]
+    show (x : Int) - 1 = _; omega
+  obtain ⟨P, hP, Pv⟩ := mul_128x128_to_256_spec C1 ⟨UInt64.ofNat (kT (x - 1) % 2^64), UInt64.ofNat (kT (x - 1) / 2^64)⟩
+  rw [val128_ofNat _ hK] at Pv
+  obtain ⟨sh, hsh', shv⟩ := tblI32_get _ (UInt64.ofInt (toI (ind - 1))) _ (by rw [hk]; exact hsh)
+    (by split at hrange <;> [skip; split at hrange] <;> omega)
+  have hmlt : 2 ^ (shT (x - 1) % 64) - 1 < 2^64 := by
+    have : 2 ^ (shT (x - 1) % 64) ≤ 2 ^ 63 := Nat.pow_le_pow_right (by decide) (by omega)
+    omega
+  obtain ⟨sw1, sw2⟩ := split_words P (shT (x - 1)) sh shv (UInt64.ofNat (2 ^ (shT (x - 1) % 64) - 1))
+    (by rw [UInt64.toNat_ofNat', Nat.mod_eq_of_lt hmlt])
+  simp only [splitK, bind, Except.bind, pure, Except.pure]
+  rw [tbl128_get _ _ _ _ (by rw [hk]; exact hk0) (by rw [hk]; exact hk1)]
+  simp only [hP]
+  rw [tbl64_get _ _ _ (by rw [hk]; exact hmask), hsh']
+  by_cases c : x - 1 ≤ 21
+  · have c' : decide (ind - 1 ≤ 0x15) = true := by
+      rw [decide_eq_true_eq, Int32.le_iff_toInt_le, d1]; show ((x - 1 : Nat) : Int) ≤ 21; omega
+    have hs63 : shT (x - 1) ≤ 63 := by
+      by_cases c2 : x - 1 ≤ 2
+      · rw [if_pos c2] at hrange; omega
+      · rw [if_neg c2, if_pos c] at hrange; omega
+    obtain ⟨q1, q2⟩ := sw1 hs63
+    simp only [c', if_true]
+    refine ⟨_, _, rfl, ?_, ?_⟩
+    · intro hA; rw [← Pv] at hA ⊢; exact q1 hA
+    · rw [← Pv]; exact q2
+  · have c' : ¬ decide (ind - 1 ≤ 0x15) = true := by
+      rw [decide_eq_true_eq, Int32.le_iff_toInt_le, d1]; show ¬ ((x - 1 : Nat) : Int) ≤ 21; omega
+    have hs : 65 ≤ shT (x - 1) ∧ shT (x - 1) ≤ 127 := by
+      rw [if_neg (by omega), if_neg c] at hrange; exact hrange
+    obtain ⟨q1, q2⟩ := sw2 hs.1 hs.2
+    simp only [c', if_false]
+    refine ⟨_, _, rfl, ?_, ?_⟩
+    · intro _; rw [← Pv]; exact q1
+    · rw [← Pv]; exact q2
+
+
+/-! ### digit removal: the interface used by the routines -/
+
+/-- what the fraction tests need to know about the fraction words `fs`, in terms of the discarded part `r = C mod 10^x`
+(`h = 5·10^(x−1)` the midpoint, `K_x` the reciprocal, `E = 128 + s_x` the split position) -/
+structure FracOK (x r : Nat) (fs : U256) : Prop where
+  lt : val256 fs < 2 ^ (128 + shT (x - 1))
+  above : 2 ^ (128 + shT (x - 1) - 1) < val256 fs ↔ r < 5 * 10 ^ (x - 1)
+  inexGe : r < 5 * 10 ^ (x - 1) → (kT (x - 1) - 1 ≤ val256 fs - 2 ^ (128 + shT (x - 1) - 1) ↔ 0 < r)
+  inexGt : r < 5 * 10 ^ (x - 1) → (kT (x - 1) - 1 < val256 fs - 2 ^ (128 + shT (x - 1) - 1) ↔ 0 < r)
+  mid : (0 < val256 fs ∧ val256 fs ≤ kT (x - 1) - 1) ↔ r = 5 * 10 ^ (x - 1)
+
+theorem two_h (x : Nat) (h1 : 1 ≤ x) : 2 * (5 * 10 ^ (x - 1)) = 10 ^ x := by
+  obtain ⟨j, rfl⟩ : ∃ j, x = j + 1 := ⟨x - 1, by omega⟩
+  rw [Nat.add_sub_cancel, Nat.pow_succ]; omega
+
+/-- **digit removal**: for a coefficient `C < 10^34` and `1 ≤ x ≤ 34` digits to remove, the block continues with the
+coefficient rounded to nearest, half up (`C / 10^x`, plus one when the discarded part is at least half a unit), and with
+fraction words on which the code's tests decide how the discarded part compares with 0 and with the midpoint -/
+theorem removeK_spec {α : Type} (C1 : U128) (ind : Int32) (k : U128 → U256 → Except String α) (x : Nat)
+    (hx : ind.toInt = x) (h1 : 1 ≤ x) (h34 : x ≤ 34) (hC : val128 C1 < 10 ^ 34) :
+    ∃ (Cs : U128) (fs : U256), removeK C1 ind k = k Cs fs ∧
+      ((if val128 C1 % 10 ^ x < 5 * 10 ^ (x - 1) then val128 C1 / 10 ^ x else val128 C1 / 10 ^ x + 1) < 2^64 →
+        Cs.w0.toNat = (if val128 C1 % 10 ^ x < 5 * 10 ^ (x - 1) then val128 C1 / 10 ^ x else val128 C1 / 10 ^ x + 1)) ∧
+      FracOK x (val128 C1 % 10 ^ x) fs := by
+  obtain ⟨r1, r2, -, -, -, -, -, -, -, -, -, -, -⟩ := row (x - 1) (by omega)
+  rw [show x - 1 + 1 = x by omega] at r1 r2
+  have hh : 0 < 5 * 10 ^ (x - 1) := Nat.mul_pos (by decide) (Nat.pow_pos (by decide))
+  have hhalf : 5 * 10 ^ (x - 1) ≤ 5 * 10 ^ 33 := Nat.mul_le_mul_left 5 (Nat.pow_le_pow_right (by decide) (by omega))
+  have hsum : val128 C1 + 5 * 10 ^ (x - 1) < 10 ^ 35 := by
+    calc val128 C1 + 5 * 10 ^ (x - 1) < 10 ^ 34 + 5 * 10 ^ 33 := Nat.add_lt_add_of_lt_of_le hC hhalf
+      _ < 10 ^ 35 := by decide
+  obtain ⟨C1', e1, v1⟩ := addHalfK_spec C1 ind (fun C1' => splitK C1' ind k) x hx h1 h34
+    (Nat.lt_trans hsum (by decide))
+  obtain ⟨Cs, fs, e2, qv, fv⟩ := splitK_spec C1' ind k x hx h1 h34
+  have hD := two_h x h1
+  generalize hK : kT (x - 1) = K at *
+  generalize hE : 128 + shT (x - 1) = E at *
+  have hKD : K * (2 * (5 * 10 ^ (x - 1))) = 2 ^ E + (K * 10 ^ x - 2 ^ E) := by rw [hD]; omega
+  have hb : ((val128 C1 + 5 * 10 ^ (x - 1)) / (2 * (5 * 10 ^ (x - 1))) + 1) * (K * 10 ^ x - 2 ^ E) < K := by
+    rw [hD]
+    have : (val128 C1 + 5 * 10 ^ (x - 1)) / 10 ^ x ≤ 10 ^ 35 / 10 ^ x := Nat.div_le_div_right (Nat.le_of_lt hsum)
+    calc ((val128 C1 + 5 * 10 ^ (x - 1)) / 10 ^ x + 1) * (K * 10 ^ x - 2 ^ E)
+        ≤ (10 ^ 35 / 10 ^ x + 1) * (K * 10 ^ x - 2 ^ E) := Nat.mul_le_mul_right _ (by omega)
+      _ < K := r2
+  obtain ⟨t1, t2, t3, t4, t5, -⟩ := fracTests (5 * 10 ^ (x - 1)) K E (K * 10 ^ x - 2 ^ E) (val128 C1) hh hKD (by omega)
+    (by omega) hb
+  rw [hD] at t1 t2 t3 t4 t5
+  rw [v1] at qv fv
+  subst hK; subst hE
+  refine ⟨Cs, fs, by unfold removeK; rw [e1, e2], ?_, ?_⟩
+  · intro hA
+    rw [← t1] at hA ⊢
+    exact qv hA
+  · rw [← fv] at t2 t3 t4 t5
+    exact ⟨by rw [fv]; exact Nat.mod_lt _ (Nat.pow_pos (by decide)), t2, t3, t4, t5⟩
+
+
+/-! ### the fraction tests -/
+
+theorem u64_sub_toNat (a b : UInt64) (h : b.toNat ≤ a.toNat) : (a - b).toNat = a.toNat - b.toNat := by
+  have := a.toNat_lt
+  rw [UInt64.toNat_sub]; omega
+
+theorem ite_tt (c d : Bool) : (if c = true then true else d) = (c || d) := by cases c <;> rfl
+theorem ite_ff (c d : Bool) : (if c = true then d else false) = (c && d) := by cases c <;> rfl
+
+/-- turn a Boolean combination of word comparisons into a statement about numbers -/
+macro "words_omega" : tactic => `(tactic| (
+  rw [Bool.eq_iff_iff, decide_eq_true_iff]
+  simp only [Bool.or_eq_true, Bool.and_eq_true, decide_eq_true_eq, beq_iff_eq, bne_iff_ne, ne_eq, gt_iff_lt, ge_iff_le,
+    UInt64.lt_iff_toNat_lt, UInt64.le_iff_toNat_le, ← UInt64.toNat_inj, UInt64.toNat_ofNat, UInt64.toNat_zero] at *
+  omega))
+
+/-- **fraction classification**: `kA` when the discarded part is non-zero and below the midpoint, `kB` when it is zero,
+`kC` when it is at or above the midpoint -/
+theorem fracK_spec {α : Type} (fs : U256) (ind : Int32) (kA kB kC : Except String α) (x r : Nat)
+    (hx : ind.toInt = x) (h1 : 1 ≤ x) (h34 : x ≤ 34) (ok : FracOK x r fs) :
+    fracK fs ind kA kB kC = if r < 5 * 10 ^ (x - 1) then (if 0 < r then kA else kB) else kC := by
+  obtain ⟨-, -, hT1, hK, -, -, ht0, ht1, -, hoh, -, hrange, -⟩ := row (x - 1) (by omega)
+  obtain ⟨hlt, habove, hge, hgt, -⟩ := ok
+  have hk := idx_sub ind 1 x 1 hx rfl h1 (by omega)
+  have d1 : (ind - 1).toInt = ((x - 1 : Nat) : Int) := by
+    rw [i32_sub _ _ (by rw [hx]; show (-2^31 : Int) ≤ x - 1; omega) (by rw [hx]; show (x : Int) - 1 < 2^31; omega), hx]
+    show (x : Int) - 1 = _; omega
+  have hTlt : tT (x - 1) < 2^128 := by omega
+  have hTr := tbl128_get _ (UInt64.ofInt (toI (ind - 1))) _ _ (by rw [hk]; exact ht0) (by rw [hk]; exact ht1)
+  have hOH := tbl64_get _ (UInt64.ofInt (toI (ind - 1))) _ (by rw [hk]; exact hoh)
+  have b0 := fs.w0.toNat_lt; have b1 := fs.w1.toNat_lt; have b2 := fs.w2.toNat_lt; have b3 := fs.w3.toNat_lt
+  have hKT : kT (x - 1) - 1 = tT (x - 1) := by omega
+  rw [hKT] at hge hgt
+  simp only [fracK, bind, Except.bind, pure, Except.pure, hTr, hOH, ite_ok, ite_tt, ite_ff]
+  clear hTr hOH ht0 ht1 hoh hKT hT1 hK
+  generalize hF : val256 fs = F at *
+  generalize hTv : tT (x - 1) = T at *
+  have tv0 : (UInt64.ofNat (T % 2^64)).toNat = T % 2^64 := by rw [UInt64.toNat_ofNat', Nat.mod_mod]
+  have tv1 : (UInt64.ofNat (T / 2^64)).toNat = T / 2^64 := by rw [UInt64.toNat_ofNat', Nat.mod_eq_of_lt (by omega)]
+  generalize UInt64.ofNat (T % 2^64) = t0 at *
+  generalize UInt64.ofNat (T / 2^64) = t1 at *
+  have ht01 : T = t1.toNat * 2^64 + t0.toNat := by omega
+  unfold val256 at hF
+  -- the shape of the conclusion once the two tests are known
+  have fin : ∀ (B1 B2 : Bool) (E : Nat), (128 + shT (x - 1) - 1 = E) → B1 = decide (2 ^ E < F) → (B1 = true → (B2 = decide (T < F - 2 ^ E) ∨ B2 = decide (T ≤ F - 2 ^ E))) →
+      (if B1 = true then (if B2 = true then kA else kB) else kC) =
+        if r < 5 * 10 ^ (x - 1) then (if 0 < r then kA else kB) else kC := by
+    intro B1 B2 E hE e1 e2
+    rw [hE] at habove hgt hge
+    by_cases hr : r < 5 * 10 ^ (x - 1)
+    · have hab := habove.2 hr
+      have e1' : B1 = true := by rw [e1]; exact decide_eq_true hab
+      rw [e1', if_pos hr, if_pos rfl]
+      rcases e2 e1' with e2 | e2 <;> rw [e2]
+      · by_cases h0 : 0 < r
+        · rw [if_pos h0, decide_eq_true ((hgt hr).2 h0), if_pos rfl]
+        · rw [if_neg h0, decide_eq_false (fun h => h0 ((hgt hr).1 h)), if_neg (by decide)]
+      · by_cases h0 : 0 < r
+        · rw [if_pos h0, decide_eq_true ((hge hr).2 h0), if_pos rfl]
+        · rw [if_neg h0, decide_eq_false (fun h => h0 ((hge hr).1 h)), if_neg (by decide)]
+    · rw [if_neg hr, e1, decide_eq_false (fun h => hr (habove.1 h)), if_neg (by decide)]
+  by_cases c1 : x - 1 ≤ 2
+  · -- E = 128
+    have c1' : decide (ind - 1 ≤ 2) = true := by
+      rw [decide_eq_true_eq, Int32.le_iff_toInt_le, d1]; show ((x - 1 : Nat) : Int) ≤ 2; omega
+    rw [if_pos c1']
+    rw [if_pos c1] at hrange
+    rw [hrange] at hlt
+    have h32 : fs.w3.toNat = 0 ∧ fs.w2.toNat = 0 := by omega
+    apply fin _ _ 127 (by rw [hrange])
+    · words_omega
+    · intro hB1
+      right
+      have hhi : 2^63 ≤ fs.w1.toNat := by
+        simp only [Bool.or_eq_true, Bool.and_eq_true, decide_eq_true_eq, beq_iff_eq, gt_iff_lt, UInt64.lt_iff_toNat_lt,
+          ← UInt64.toNat_inj, UInt64.toNat_ofNat] at hB1
+        omega
+      have hsub : (fs.w1 - 9223372036854775808).toNat = fs.w1.toNat - 2^63 := u64_sub_toNat _ _ hhi
+      generalize fs.w1 - 9223372036854775808 = d at *
+      words_omega
+  · have c1' : ¬ decide (ind - 1 ≤ 2) = true := by
+      rw [decide_eq_true_eq, Int32.le_iff_toInt_le, d1]; show ¬ ((x - 1 : Nat) : Int) ≤ 2; omega
+    rw [if_neg c1']
+    rw [if_neg c1] at hrange
+    by_cases c2 : x - 1 ≤ 21
+    · -- E = 128 + s, 1 ≤ s ≤ 63
+      have c2' : decide (ind - 1 ≤ 21) = true := by
+        rw [decide_eq_true_eq, Int32.le_iff_toInt_le, d1]; show ((x - 1 : Nat) : Int) ≤ 21; omega
+      rw [if_pos c2']
+      rw [if_pos c2] at hrange
+      have hs : shT (x - 1) % 64 = shT (x - 1) := Nat.mod_eq_of_lt (by omega)
+      rw [hs, if_neg (show ¬ shT (x - 1) = 0 by omega)]
+      generalize shT (x - 1) = s at *
+      have hpow : 2 ^ (128 + s) = 2 ^ 128 * (2 * 2 ^ (s - 1)) := by
+        rw [← Nat.pow_succ', ← Nat.pow_add]; congr 1; omega
+      have hpow' : 2 ^ (128 + s - 1) = 2 ^ 128 * 2 ^ (s - 1) := by rw [← Nat.pow_add]; congr 1; omega
+      have hoh : 2 ^ (s - 1) ≤ 2 ^ 62 := Nat.pow_le_pow_right (by decide) (by omega)
+      have ohv : (UInt64.ofNat (2 ^ (s - 1))).toNat = 2 ^ (s - 1) := by
+        rw [UInt64.toNat_ofNat', Nat.mod_eq_of_lt (by omega)]
+      generalize UInt64.ofNat (2 ^ (s - 1)) = OH at *
+      rw [hpow] at hlt
+      generalize 2 ^ (s - 1) = oh at *
+      have h3 : fs.w3.toNat = 0 := by
+        apply Classical.byContradiction; intro h3
+        have : 2 ^ 128 * (2 * oh) ≤ 2 ^ 128 * 2 ^ 64 := Nat.mul_le_mul_left _ (by omega)
+        omega
+      have hnb : (decide (fs.w3 > 0) || fs.w3 == 0 && decide (fs.w2 > OH) ||
+          fs.w3 == 0 && fs.w2 == OH && (fs.w1 != 0 || fs.w0 != 0)) = true → OH.toNat ≤ fs.w2.toNat := by
+        intro hB
+        simp only [Bool.or_eq_true, Bool.and_eq_true, decide_eq_true_eq, beq_iff_eq, gt_iff_lt, UInt64.lt_iff_toNat_lt,
+          ← UInt64.toNat_inj, UInt64.toNat_zero] at hB
+        omega
+      have shape : ∀ (B1 : Bool) (X Y : Except String α) (c : Prop) [Decidable c], (B1 = true → ¬ c) →
+          (if B1 = true then (if c then X else Y) else kC) = (if B1 = true then Y else kC) := by
+        intro B1 X Y c _ h
+        by_cases hB : B1 = true
+        · rw [if_pos hB, if_pos hB, if_neg (h hB)]
+        · rw [if_neg hB, if_neg hB]
+      rw [shape _ _ _ (decide (fs.w2 - OH > fs.w2) = true) (by
+        intro hB
+        have := hnb hB
+        rw [decide_eq_true_eq, gt_iff_lt, UInt64.lt_iff_toNat_lt, u64_sub_toNat _ _ this]
+        omega)]
+      apply fin _ _ _ rfl
+      · rw [hpow']; words_omega
+      · intro hB1
+        left
+        have hle := hnb hB1
+        have hsub : (fs.w2 - OH).toNat = fs.w2.toNat - OH.toNat := u64_sub_toNat _ _ hle
+        generalize fs.w2 - OH = d at *
+        rw [hpow']; words_omega
+    · -- E = 128 + s, 65 ≤ s ≤ 127
+      have c2' : ¬ decide (ind - 1 ≤ 21) = true := by
+        rw [decide_eq_true_eq, Int32.le_iff_toInt_le, d1]; show ¬ ((x - 1 : Nat) : Int) ≤ 21; omega
+      rw [if_neg c2']
+      rw [if_neg c2] at hrange
+      have hs : shT (x - 1) % 64 = shT (x - 1) - 64 := by omega
+      rw [hs, if_neg (show ¬ shT (x - 1) - 64 = 0 by omega)]
+      generalize shT (x - 1) = s at *
+      have hpow : 2 ^ (128 + s) = 2 ^ 192 * (2 * 2 ^ (s - 64 - 1)) := by
+        rw [← Nat.pow_succ', ← Nat.pow_add]; congr 1; omega
+      have hpow' : 2 ^ (128 + s - 1) = 2 ^ 192 * 2 ^ (s - 64 - 1) := by rw [← Nat.pow_add]; congr 1; omega
+      have hoh : 2 ^ (s - 64 - 1) ≤ 2 ^ 62 := Nat.pow_le_pow_right (by decide) (by omega)
+      have ohv : (UInt64.ofNat (2 ^ (s - 64 - 1))).toNat = 2 ^ (s - 64 - 1) := by
+        rw [UInt64.toNat_ofNat', Nat.mod_eq_of_lt (by omega)]
+      generalize UInt64.ofNat (2 ^ (s - 64 - 1)) = OH at *
+      rw [hpow] at hlt
+      generalize 2 ^ (s - 64 - 1) = oh at *
+      apply fin _ _ _ rfl
+      · rw [hpow']; words_omega
+      · intro hB1
+        left
+        have hle : OH.toNat ≤ fs.w3.toNat := by
+          simp only [Bool.or_eq_true, Bool.and_eq_true, decide_eq_true_eq, beq_iff_eq, gt_iff_lt, UInt64.lt_iff_toNat_lt,
+            ← UInt64.toNat_inj] at hB1
+          omega
+        have hsub : (fs.w3 - OH).toNat = fs.w3.toNat - OH.toNat := u64_sub_toNat _ _ hle
+        generalize fs.w3 - OH = d at *
+        rw [hpow']; words_omega
+
+
+/-- **midpoint test**: `kMid` exactly when the discarded part is half a unit of the last kept place -/
+theorem midK_spec {α : Type} (fs : U256) (ind : Int32) (kMid kNot : Except String α) (x r : Nat)
+    (hx : ind.toInt = x) (h1 : 1 ≤ x) (h34 : x ≤ 34) (ok : FracOK x r fs) :
+    midK fs ind kMid kNot = if r = 5 * 10 ^ (x - 1) then kMid else kNot := by
+  obtain ⟨-, -, hT1, hK, -, -, ht0, ht1, -, -, -, -, -⟩ := row (x - 1) (by omega)
+  obtain ⟨-, -, -, -, hmid⟩ := ok
+  have hk := idx_sub ind 1 x 1 hx rfl h1 (by omega)
+  have hTlt : tT (x - 1) < 2^128 := by omega
+  have hTr := tbl128_get _ (UInt64.ofInt (toI (ind - 1))) _ _ (by rw [hk]; exact ht0) (by rw [hk]; exact ht1)
+  have b0 := fs.w0.toNat_lt; have b1 := fs.w1.toNat_lt; have b2 := fs.w2.toNat_lt; have b3 := fs.w3.toNat_lt
+  have hKT : kT (x - 1) - 1 = tT (x - 1) := by omega
+  rw [hKT] at hmid
+  simp only [midK, bind, Except.bind, pure, Except.pure, hTr, ite_ok, ite_tt, ite_ff]
+  clear hTr ht0 ht1 hKT hT1 hK
+  generalize hF : val256 fs = F at *
+  generalize hTv : tT (x - 1) = T at *
+  have tv0 : (UInt64.ofNat (T % 2^64)).toNat = T % 2^64 := by rw [UInt64.toNat_ofNat', Nat.mod_mod]
+  have tv1 : (UInt64.ofNat (T / 2^64)).toNat = T / 2^64 := by rw [UInt64.toNat_ofNat', Nat.mod_eq_of_lt (by omega)]
+  generalize UInt64.ofNat (T % 2^64) = t0 at *
+  generalize UInt64.ofNat (T / 2^64) = t1 at *
+  have ht01 : T = t1.toNat * 2^64 + t0.toNat := by omega
+  unfold val256 at hF
+  have e : (fs.w3 == 0 && fs.w2 == 0 && (fs.w1 != 0 || fs.w0 != 0) &&
+      (decide (fs.w1 < t1) || fs.w1 == t1 && decide (fs.w0 ≤ t0))) = decide (0 < F ∧ F ≤ T) := by
+    words_omega
+  rw [e]
+  by_cases hr : r = 5 * 10 ^ (x - 1)
+  · rw [if_pos hr, decide_eq_true (hmid.2 hr), if_pos rfl]
+  · rw [if_neg hr, decide_eq_false (fun h => hr (hmid.1 h)), if_neg (by decide)]
 
 
 end Dec.C06GenToInt
